@@ -55,6 +55,10 @@ pub fn gen_c14(rng: &mut Rng, thorough: bool) -> Vec<Tagged> {
                     out.push(("gettriple1-short".into(), Case::GetTriple(t1(rng.distinct(n - 1)), Shape::Triple(c, h, w))));
                 }
                 out.push(("gettriple1-long".into(), Case::GetTriple(t1(rng.distinct(n + 2)), Shape::Triple(c, h, w))));
+                // a vector LONGER than the target shape must be refused as well
+                out.push(("reshape13-ne-longer".into(), Case::Reshape(t1(rng.distinct(n + d)), Shape::Triple(c, h, w))));
+                out.push(("reshape33-ne-smaller".into(), Case::Reshape(t3(c, h, w + d, &rng.distinct(c * h * (w + d))), Shape::Triple(c, h, w))));
+                out.push(("reshape31-ne-smaller".into(), Case::Reshape(t3(c, h, w + d, &rng.distinct(c * h * (w + d))), Shape::Single(n))));
                 out.push(("gettriple3".into(), Case::GetTriple(x3.clone(), Shape::Triple(w, h, c))));
             }
         }
